@@ -32,40 +32,52 @@ Definition chromosome_name_csv (prefix : str) (scs : list scaffold) : option str
   | l => Some (concat l)
   end.
 
-(* name_assemblies(asm_dict, root, version): (new key, assembly name, curated) in output order *)
+(* name_assemblies(asm_dict, root, version): the assemblies as they are written,
+   in output order: (new key, file-name stem, curated flag, scaffolds).  Every
+   Assembly object is truthy, so asm_dict.get(k) tests presence of the key. *)
 Definition dot : str := s ".".
 Definition stem (root version : str) (what : str) : str := root ++ dot ++ version ++ dot ++ what.
 
-Definition name_assemblies (asms : list (option str * bool)) (root version : str)
-  : list (option str * str * bool) :=
-  let has (k : option str) := existsb (fun a : option str * bool => opt_eqb str_eqb (fst a) k) asms in
+Record named_asm := mkNamed {
+  na_key : option str; na_name : str; na_curated : bool; na_scaffolds : list scaffold
+}.
+
+Definition is_primary_key (k : option str) : bool := opt_eqb str_eqb k (Some (s "Primary")).
+
+(* asm_key.lower() on the key None raises AttributeError *)
+Definition key_lower (k : option str) : res str :=
+  match k with Some t => Ok (lower t) | None => Err AttributeError end.
+
+Definition name_assemblies (asms : list out_asm) (root version : str) : res (list named_asm) :=
+  let has (k : option str) := existsb (fun a => opt_eqb str_eqb (oa_key a) k) asms in
   if has (Some (s "Primary")) then
-    let named :=
-      flat_map (fun (a : option str * bool) => let '(k, cur) := a in
-                  if opt_eqb str_eqb k (Some (s "Primary")) then [(k, stem root version (s "primary"), cur)]
-                  else if cur then []
-                  else match k with
-                       | Some t => [(k, stem root version (lower t ++ s "s"), cur)]
-                       | None => []          (* asm_key.lower() on None raises; cannot occur with a curated flag false *)
-                       end) asms in
-    let others := filter (fun (a : option str * bool) => let '(k, cur) := a in cur && negb (opt_eqb str_eqb k (Some (s "Primary")))) asms in
+    do named <- foldM (fun acc a =>
+        if is_primary_key (oa_key a)
+        then Ok (acc ++ [mkNamed (oa_key a) (stem root version (s "primary")) (oa_curated a) (oa_scaffolds a)])
+        else if oa_curated a then Ok acc
+        else do l <- key_lower (oa_key a);
+             Ok (acc ++ [mkNamed (oa_key a) (stem root version (l ++ s "s")) false (oa_scaffolds a)]))
+      asms [];
+    let others := filter (fun a => negb (is_primary_key (oa_key a)) && oa_curated a) asms in
     match others with
-    | [] => named
-    | _ => named ++ [(Some (s "all_haplotigs"), stem root version (s "all_haplotigs"), true)]
+    | [] => Ok named
+    | _ => Ok (named ++ [mkNamed (Some (s "all_haplotigs")) (stem root version (s "all_haplotigs")) true
+                           (flat_map oa_scaffolds others)])
     end
   else if has None then
-    map (fun (a : option str * bool) => let '(k, cur) := a in
-           match k with
-           | None => (None, stem root version (s "primary"), cur)
-           | Some t =>
-               if str_eqb t (s "Haplotig")
-               then (Some (s "additional_haplotigs"), stem root version (s "additional_haplotigs"), true)
-               else (k, stem root version (lower t ++ s "s"), cur)
-           end) asms
+    foldM (fun acc a =>
+        match oa_key a with
+        | None => Ok (acc ++ [mkNamed None (stem root version (s "primary")) (oa_curated a) (oa_scaffolds a)])
+        | Some t =>
+            if str_eqb t (s "Haplotig")
+            then Ok (acc ++ [mkNamed (Some (s "additional_haplotigs"))
+                               (stem root version (s "additional_haplotigs")) true (oa_scaffolds a)])
+            else Ok (acc ++ [mkNamed (oa_key a) (stem root version (lower t ++ s "s")) (oa_curated a) (oa_scaffolds a)])
+        end) asms []
   else
-    map (fun (a : option str * bool) => let '(k, cur) := a in
-           match k with
-           | Some t => if cur then (k, root ++ dot ++ lower t ++ dot ++ version ++ dot ++ s "primary", cur)
-                       else (k, stem root version (lower t ++ s "s"), cur)
-           | None => (k, [], cur)
-           end) asms.
+    foldM (fun acc a =>
+        do l <- key_lower (oa_key a);
+        if oa_curated a
+        then Ok (acc ++ [mkNamed (oa_key a) (root ++ dot ++ l ++ dot ++ version ++ dot ++ s "primary") true (oa_scaffolds a)])
+        else Ok (acc ++ [mkNamed (oa_key a) (stem root version (l ++ s "s")) false (oa_scaffolds a)]))
+      asms [].
